@@ -245,6 +245,57 @@ theorem mem_of_mem_dget {m : List (κ × List γ)} {k : κ} {x : γ} (h : x ∈ 
 
 end DefaultDict
 
+/-! ### a fold of `m[k].add(x)` over a list (shape of `dependants` and of `edge_i` after the fix) -/
+section FoldDadd
+variable {ε κ γ : Type} [DecidableEq κ] [DecidableEq γ]
+
+theorem foldDadd_inv (fk : ε → κ) (fv : ε → γ) (es : List ε) (m : List (κ × List γ))
+    (hk : (keys m).Nodup) (hv : ValsNodup m) :
+    let r := es.foldl (fun m e => dadd m (fk e) (fv e)) m
+    (keys r).Nodup ∧ ValsNodup r ∧
+    (∀ k x, x ∈ dget r k ↔ x ∈ dget m k ∨ ∃ e ∈ es, fk e = k ∧ fv e = x) ∧
+    (∀ k, k ∈ keys r ↔ k ∈ keys m ∨ ∃ e ∈ es, fk e = k) := by
+  induction es generalizing m with
+  | nil => simp_all
+  | cons e es ih =>
+    have hk' : (keys (dadd m (fk e) (fv e))).Nodup := nodup_keys_dset hk
+    have hv' : ValsNodup (dadd m (fk e) (fv e)) := valsNodup_dset hv (nodup_sadd (hv _))
+    obtain ⟨h1, h2, h3, h4⟩ := ih _ hk' hv'
+    refine ⟨h1, h2, ?_, ?_⟩
+    · intro k x
+      simp only [List.foldl_cons]
+      rw [h3 k x, dget_dadd]
+      by_cases h : fk e = k
+      · subst h
+        simp only [↓reduceIte, mem_sadd, List.mem_cons, exists_eq_or_imp, true_and]
+        constructor
+        · rintro ((h | h) | h)
+          · exact Or.inl h
+          · exact Or.inr (Or.inl h.symm)
+          · exact Or.inr (Or.inr h)
+        · rintro (h | h | h)
+          · exact Or.inl (Or.inl h)
+          · exact Or.inl (Or.inr h.symm)
+          · exact Or.inr h
+      · simp [h]
+    · intro k
+      simp only [List.foldl_cons]
+      rw [h4 k]
+      unfold dadd
+      rw [mem_keys_dset]
+      simp only [List.mem_cons, exists_eq_or_imp]
+      constructor
+      · rintro ((h | h) | h)
+        · exact Or.inr (Or.inl h.symm)
+        · exact Or.inl h
+        · exact Or.inr (Or.inr h)
+      · rintro (h | h | h)
+        · exact Or.inl (Or.inr h)
+        · exact Or.inl (Or.inl h.symm)
+        · exact Or.inr h
+
+end FoldDadd
+
 /-! ### `dependants` -/
 section Views
 variable {α β : Type} [DecidableEq α] [DecidableEq β]
@@ -502,8 +553,8 @@ theorem mem_keys_paramSource {es : List (Edge α β)} {t : α} :
   unfold paramSource
   simpa using this
 
-theorem keys_edgeI (es : List (Edge α β)) : keys (edgeI es) = keys (paramSource es) := by
-  simp [edgeI, keys, List.map_map, Function.comp_def]
+theorem keys_edgeIParams (es : List (Edge α β)) : keys (edgeIParams es) = keys (paramSource es) := by
+  simp [edgeIParams, keys, List.map_map, Function.comp_def]
 
 theorem dlookup_map_snd {κ ν μ : Type} [DecidableEq κ] {m : List (κ × ν)} {g : ν → μ} {k : κ} :
     dlookup (m.map (fun p => (p.1, g p.2))) k = (dlookup m k).map g := by
@@ -514,17 +565,17 @@ theorem dlookup_map_snd {κ ν μ : Type} [DecidableEq κ] {m : List (κ × ν)}
     simp only [List.map_cons, dlookup, ih]
     by_cases h : a = k <;> simp [h]
 
-theorem dlookup_edgeI (es : List (Edge α β)) (t : α) :
-    dlookup (edgeI es) t = (dlookup (paramSource es) t).map
+theorem dlookup_edgeIParams (es : List (Edge α β)) (t : α) :
+    dlookup (edgeIParams es) t = (dlookup (paramSource es) t).map
       (fun (row : List (Key × (α × β))) => toSet (row.map (fun q => q.2))) := by
-  unfold edgeI
+  unfold edgeIParams
   exact dlookup_map_snd (κ := α) (g := fun (row : List (Key × (α × β))) => toSet (row.map (fun q => q.2)))
 
-/-- `edge_i[t]` holds exactly the sources of the edges entering `t`. -/
-theorem mem_dget_edgeI {es : List (Edge α β)} (hu : UniqueInputs es) {t : α} {ds : α × β} :
-    ds ∈ dget (edgeI es) t ↔ ∃ e ∈ es, e.dst = t ∧ (e.src, e.out) = ds := by
+/-- under `UniqueInputs`, the executor's view `edgeIParams` holds exactly the sources of the edges entering `t`. -/
+theorem mem_dget_edgeIParams {es : List (Edge α β)} (hu : UniqueInputs es) {t : α} {ds : α × β} :
+    ds ∈ dget (edgeIParams es) t ↔ ∃ e ∈ es, e.dst = t ∧ (e.src, e.out) = ds := by
   unfold dget
-  rw [dlookup_edgeI]
+  rw [dlookup_edgeIParams]
   cases hrow : dlookup (paramSource es) t with
   | none =>
     simp only [Option.map_none, Option.getD_none, List.not_mem_nil, false_iff, not_exists, not_and]
@@ -559,12 +610,27 @@ theorem mem_dget_edgeI {es : List (Edge α β)} (hu : UniqueInputs es) {t : α} 
       rw [hrow] at hl
       exact ⟨(e.key, (e.src, e.out)), mem_of_dlookup hl, heds⟩
 
-theorem nodup_dget_edgeI (es : List (Edge α β)) (t : α) : (dget (edgeI es) t).Nodup := by
+theorem nodup_dget_edgeIParams (es : List (Edge α β)) (t : α) : (dget (edgeIParams es) t).Nodup := by
   unfold dget
-  rw [dlookup_edgeI]
+  rw [dlookup_edgeIParams]
   cases dlookup (paramSource es) t with
   | none => simp
   | some row => simpa using nodup_toSet
+
+/-! `edge_i` after the fix -/
+
+theorem nodup_keys_edgeI (es : List (Edge α β)) : (keys (edgeI es)).Nodup :=
+  (foldDadd_inv (fun (e : Edge α β) => e.dst) (fun e => (e.src, e.out)) es [] (by simp) valsNodup_nil).1
+
+/-- `edge_i[t]` holds exactly the sources of the edges entering `t` — for every edge list. -/
+theorem mem_dget_edgeI {es : List (Edge α β)} {t : α} {ds : α × β} :
+    ds ∈ dget (edgeI es) t ↔ ∃ e ∈ es, e.dst = t ∧ (e.src, e.out) = ds := by
+  have := (foldDadd_inv (fun (e : Edge α β) => e.dst) (fun e => (e.src, e.out)) es [] (by simp) valsNodup_nil).2.2.1 t ds
+  unfold edgeI
+  simpa [dget, dlookup] using this
+
+theorem nodup_dget_edgeI (es : List (Edge α β)) (t : α) : (dget (edgeI es) t).Nodup :=
+  (foldDadd_inv (fun (e : Edge α β) => e.dst) (fun e => (e.src, e.out)) es [] (by simp) valsNodup_nil).2.1 t
 
 theorem edgeIProj_lookup (ei : List (α × List (α × β))) (m : List (α × List α)) (hk : (keys ei).Nodup) (c : α) :
     dlookup (ei.foldl (fun m p => dset m p.1 (toSet (p.2.map (·.1)))) m) c =
@@ -588,17 +654,16 @@ theorem edgeIProj_lookup (ei : List (α × List (α × β))) (m : List (α × Li
       | some v => simp
 
 /-- `edge_i_proj[c]` holds exactly the source tasks of the edges entering `c`. -/
-theorem mem_edgeIP {job : Job α β} (hu : UniqueInputs job.edges) {a c : α} :
+theorem mem_edgeIP {job : Job α β} {a c : α} :
     a ∈ edgeIP job c ↔ ∃ e ∈ job.edges, e.src = a ∧ e.dst = c := by
   unfold edgeIP edgeIProj dget
-  have hk : (keys (edgeI job.edges)).Nodup := by
-    rw [keys_edgeI]; exact nodup_keys_paramSource _
+  have hk : (keys (edgeI job.edges)).Nodup := nodup_keys_edgeI _
   rw [edgeIProj_lookup _ _ hk]
   cases hrow : dlookup (edgeI job.edges) c with
   | none =>
     simp only [dlookup, Option.getD_none, List.not_mem_nil, false_iff, not_exists, not_and]
     intro e he hea hec
-    have : (e.src, e.out) ∈ dget (edgeI job.edges) c := (mem_dget_edgeI hu).mpr ⟨e, he, hec, rfl⟩
+    have : (e.src, e.out) ∈ dget (edgeI job.edges) c := mem_dget_edgeI.mpr ⟨e, he, hec, rfl⟩
     unfold dget at this
     rw [hrow] at this
     simp at this
@@ -608,18 +673,17 @@ theorem mem_edgeIP {job : Job α β} (hu : UniqueInputs job.edges) {a c : α} :
     constructor
     · rintro ⟨ds, hds, hda⟩
       rw [← hd] at hds
-      obtain ⟨e, he, hec, heds⟩ := (mem_dget_edgeI hu).mp hds
+      obtain ⟨e, he, hec, heds⟩ := mem_dget_edgeI.mp hds
       refine ⟨e, he, ?_, hec⟩
       rw [← hda, ← heds]
     · rintro ⟨e, he, hea, hec⟩
       refine ⟨(e.src, e.out), ?_, hea⟩
       rw [← hd]
-      exact (mem_dget_edgeI hu).mpr ⟨e, he, hec, rfl⟩
+      exact mem_dget_edgeI.mpr ⟨e, he, hec, rfl⟩
 
 theorem nodup_edgeIP (job : Job α β) (c : α) : (edgeIP job c).Nodup := by
   unfold edgeIP edgeIProj dget
-  have hk : (keys (edgeI job.edges)).Nodup := by
-    rw [keys_edgeI]; exact nodup_keys_paramSource _
+  have hk : (keys (edgeI job.edges)).Nodup := nodup_keys_edgeI _
   rw [edgeIProj_lookup _ _ hk]
   cases dlookup (edgeI job.edges) c with
   | none => simp [dlookup]
